@@ -398,6 +398,9 @@ func (m *MonValidators) AfterStep(nw *Network) {
 		if n.ResetEpochs > 0 && !m.IncludeReset {
 			continue
 		}
+		if n.ResetEpochs > 0 && n.InsertFailedStep >= 0 {
+			continue
+		}
 		app := n.App
 		s := m.st[app]
 		if s == nil || s.epoch != n.ResetEpochs {
